@@ -5,8 +5,9 @@ ALL=1, every property's check) against the changed tree. A VIOLATION is a false 
 are kept under /verif/benign/<prop>/<name>/ as regression material."""
 import json, os, re, shutil, subprocess, sys
 prop, src, name = sys.argv[1:4]
+WT = os.environ.get("WT", "/tmp/mt"); BIN = os.environ.get("BIN", "/verif/bin/osmolint")
 env = dict(os.environ, GOPROXY="off", GOSUMDB="off", GOTOOLCHAIN="local"); env.pop("GOFLAGS", None); env.pop("GOWORK", None)
-def sh(cmd, **kw): return subprocess.run(cmd, shell=True, capture_output=True, text=True, cwd="/tmp/mt", env=env, **kw)
+def sh(cmd, **kw): return subprocess.run(cmd, shell=True, capture_output=True, text=True, cwd=WT, env=env, **kw)
 sh("git checkout -q -- . ; git clean -fdq . ; git checkout -q --detach main")
 a = sh(f"git apply --whitespace=nowarn {src}/patch.diff")
 if a.returncode != 0:
@@ -17,12 +18,12 @@ for m in ("osmomath", "osmoutils", "x/epochs"):
     if re.search(rf"^\+\+\+ b/{m}/", patch, re.M): mods.add(m)
 build = "OK"
 for m in mods:
-    b = subprocess.run("go build ./...", shell=True, capture_output=True, text=True, cwd=f"/tmp/mt/{m}", env=env)
+    b = subprocess.run("go build ./...", shell=True, capture_output=True, text=True, cwd=f"{WT}/{m}", env=env)
     if b.returncode != 0 and "statik" not in b.stderr: build = "FAIL: " + b.stderr[:300]
 props = [prop] if not os.environ.get("ALL") else ["all"]
 alarms = []
 for p in props:
-    r = subprocess.run(["/verif/bin/osmolint", "-property", p], capture_output=True, text=True, env=dict(os.environ, VERIF_REPO="/tmp/mt", VERIF_DIR="/tmp/mt-verif"))
+    r = subprocess.run([BIN, "-property", p], capture_output=True, text=True, env=dict(os.environ, VERIF_REPO=WT, VERIF_DIR=WT + "-verif"))
     out = r.stdout
     for m in re.finditer(r"VIOLATION property=(\S+).*\n\s+rule=(\S+) subject=(\S+) at (\S+)\n\s+required: (.*)\n\s+found: (.*)", out):
         alarms.append({"property": m.group(1), "rule": m.group(2), "subject": m.group(3), "at": m.group(4), "required": m.group(5), "found": m.group(6)[:300]})
